@@ -132,3 +132,12 @@ Require Copia.Proofs.TieHubWireClient.
 Theorem C13_client_wire_is_translation_of_source : TieHubWireClient.hub_wire_client_is_translation.
 Proof. exact TieHubWireClient.hub_wire_client_is_translation_holds. Qed.
 Print Assumptions C13_client_wire_is_translation_of_source.
+
+(** How the client reaches its hub is the translation of hub.rs `HubClient::connect` as the source has it now: a
+    `host:root` target runs `ssh -T host copia serve root` (the root as one unquoted ssh argument), any other target this
+    executable with `serve target`; then the magic, Hello, one reply, accepted exactly for a Hello with version >= 1
+    (Gen/HubConnectGen.v, Proofs/TieHubConnect.v). *)
+Require Copia.Proofs.TieHubConnect.
+Theorem C13_connect_is_translation_of_source : TieHubConnect.hub_connect_is_translation.
+Proof. exact TieHubConnect.hub_connect_is_translation_holds. Qed.
+Print Assumptions C13_connect_is_translation_of_source.
